@@ -211,3 +211,4 @@ def sequential_decide(run, en):
         if st[0] == "start":
             return st
     return None
+
